@@ -39,6 +39,25 @@ RoundTrip(h) ==
   /\ hist' = Append(hist, [op |-> "roundtrip", h |-> h, h2 |-> Len(autos) + 1])
   /\ nact' = nact + 1 /\ UNCHANGED iters
 
+\* (An iterator borrows its automaton immutably for its whole life: the record keeps that automaton, `aut`.)
+\* Clone: a second handle for the same abstract automaton.  CloneFrom(d, s): the automaton behind handle d
+\* is overwritten in place by a copy of s (`Clone::clone_from`); Rust's borrow rules allow it only while no
+\* iterator borrows d, i.e. every iterator created on d has been consumed (`gone`).
+Clone(h) ==
+  /\ Len(autos) < MaxAutos /\ nact < MaxActs
+  /\ autos' = Append(autos, autos[h])
+  /\ hist' = Append(hist, [op |-> "clone", h |-> h, h2 |-> Len(autos) + 1])
+  /\ nact' = nact + 1 /\ UNCHANGED iters
+
+CloneFrom(d, s) ==
+  /\ nact < MaxActs /\ d # s
+  /\ \A i \in 1..Len(iters) : iters[i].h = d => iters[i].gone
+  /\ autos' = [autos EXCEPT ![d] = autos[s]]
+  \* the consumed iterators of d keep their results; they refer to the automaton they were created on
+  /\ iters' = [i \in 1..Len(iters) |-> IF iters[i].h = d THEN [iters[i] EXCEPT !.h = 0] ELSE iters[i]]
+  /\ hist' = Append(hist, [op |-> "clone_from", d |-> d, s |-> s])
+  /\ nact' = nact + 1
+
 MethodsOf(kd) == IF kd = "STD" THEN {"ov", "find", "nosuf"} ELSE {"lm"}
 
 \* entry "stream": a resumable byte source that has delivered only `avail` symbols so far and answers
@@ -48,8 +67,8 @@ NewIterator(h, m, entry, hay) ==
   /\ Len(iters) < MaxIters /\ nact < MaxActs
   /\ m \in MethodsOf(autos[h].kind) /\ (m = "lm" => entry = "slice")
   /\ (entry = "stream" => m \in {"ov", "nosuf"})
-  /\ iters' = Append(iters, [h |-> h, m |-> m, entry |-> entry, hay |-> hay, it |-> NewIter(m),
-                             out |-> <<>>, done |-> FALSE, lastres |-> "new",
+  /\ iters' = Append(iters, [h |-> h, aut |-> autos[h], m |-> m, entry |-> entry, hay |-> hay, it |-> NewIter(m),
+                             out |-> <<>>, done |-> FALSE, gone |-> FALSE, lastres |-> "new",
                              avail |-> IF entry = "stream" THEN 0 ELSE Len(hay)])
   /\ hist' = Append(hist, [op |-> "iter", it |-> Len(iters) + 1, h |-> h, method |-> m,
                            entry |-> entry, hay |-> hay])
@@ -57,16 +76,16 @@ NewIterator(h, m, entry, hay) ==
 
 Arrive(i, n) ==
   /\ nact < MaxActs
-  /\ iters[i].entry = "stream" /\ n > iters[i].avail /\ n <= Len(iters[i].hay)
+  /\ ~iters[i].gone /\ iters[i].entry = "stream" /\ n > iters[i].avail /\ n <= Len(iters[i].hay)
   /\ iters' = [iters EXCEPT ![i].avail = n, ![i].done = FALSE]
   /\ hist' = Append(hist, [op |-> "arrive", it |-> i, avail |-> n])
   /\ nact' = nact + 1 /\ UNCHANGED autos
 
 NextOn(i) ==
-  /\ nact < MaxActs
+  /\ nact < MaxActs /\ ~iters[i].gone
   /\ LET ir == iters[i]
          sy == SubSeq(ByteSyms(ir.hay), 1, ir.avail)
-         r  == NextCall(autos[ir.h].nfa, ir.it, sy, "B") IN
+         r  == NextCall(ir.aut.nfa, ir.it, sy, "B") IN
      /\ iters' = [iters EXCEPT ![i].it = r.it,
                                ![i].out = IF r.m = <<>> THEN @ ELSE Append(@, r.m),
                                ![i].done = (r.m = <<>>),
@@ -75,18 +94,35 @@ NextOn(i) ==
                               pulled |-> IF ir.m = "lm" THEN 0 ELSE Pulled(r.it, sy)])
   /\ nact' = nact + 1 /\ UNCHANGED autos
 
+\* Internal iteration: the iterator is handed by value to fold / for_each / count / last of the
+\* Iterator trait, which drive it to exhaustion in one call (an implementation may override them
+\* with a fused loop: that loop must produce what repeated next() calls produce from the
+\* iterator's CURRENT state, pending outputs of the overlapping iterator included).
+Drain(i, mode) ==
+  /\ nact < MaxActs /\ ~iters[i].gone
+  /\ LET ir == iters[i]
+         sy == SubSeq(ByteSyms(ir.hay), 1, ir.avail)
+         r  == RunN(ir.aut.nfa, ir.it, sy, "B", (Len(sy) + 1) * (Len(ir.aut.nfa.outs) + 1) + 1) IN
+     /\ iters' = [iters EXCEPT ![i].it = r.it, ![i].out = @ \o r.ms, ![i].done = TRUE,
+                               ![i].gone = TRUE, ![i].lastres = "none"]
+     /\ hist' = Append(hist, [op |-> "drain", it |-> i, mode |-> mode, res |-> r.ms])
+  /\ nact' = nact + 1 /\ UNCHANGED autos
+
 Next == \/ \E k \in 1..Len(Menu) : Build(k)
         \/ \E h \in 1..Len(autos) : RoundTrip(h)
+        \/ \E h \in 1..Len(autos) : Clone(h)
+        \/ \E d, s \in 1..Len(autos) : CloneFrom(d, s)
         \/ \E h \in 1..Len(autos), m \in {"ov", "find", "nosuf", "lm"}, e \in {"slice", "iter", "stream"},
               hay \in Hays : NewIterator(h, m, e, hay)
         \/ \E i \in 1..Len(iters) : NextOn(i)
+        \/ \E i \in 1..Len(iters), mode \in {"fold", "for_each", "count", "last"} : Drain(i, mode)
         \/ \E i \in 1..Len(iters) : \E n \in 1..Len(iters[i].hay) : Arrive(i, n)
 Spec == Init /\ [][Next]_vars
 
 \* ---- theorems --------------------------------------------------------------------------------
 \* P-pure / C14, C12: however the calls are interleaved, every iterator has produced a prefix of
 \* what an uninterrupted run of the same search produces, and the whole of it once exhausted
-Solo(ir) == RunAll(autos[ir.h].nfa, ir.m, ByteSyms(ir.hay), "B").ms
+Solo(ir) == RunAll(ir.aut.nfa, ir.m, ByteSyms(ir.hay), "B").ms
 Interleaved ==
   \A i \in 1..Len(iters) :
     LET ir == iters[i] so == Solo(ir) IN
@@ -97,7 +133,7 @@ Interleaved ==
 \* and that uninterrupted run means what Semantics says (restored automata included: C09)
 Meaning ==
   \A i \in 1..Len(iters) :
-    Solo(iters[i]) = Expected(iters[i].m, autos[iters[i].h].kind, autos[iters[i].h].pats, iters[i].hay)
+    Solo(iters[i]) = Expected(iters[i].m, iters[i].aut.kind, iters[i].aut.pats, iters[i].hay)
 \* P-lazy (C12)
 Lazy ==
   \A i \in 1..Len(iters) :
